@@ -56,6 +56,9 @@ def cases(tier, rng):
         out.append(("(rename-rule %d %s)" % (rng.choice([0, 1, 12]), rrule(rng)), "rule"))
         ts = [atom(rng.choice(["p", "go"]))] + [rterm(rng, 2) for _ in range(rng.randint(0, 4))]
         out.append(("(make-query (%s))" % " ".join(ts), "query"))
+    hs300 = [rule(cplx("p", integer(k), V(rng), V(rng)), "gnil") for k in range(300)]
+    for idx in (0, 1, 254, 255, 256, 257, 298, 299):
+        out.append(("(get-rule %d %d (kb %s))" % (rng.choice([0, 9]), idx, " ".join(hs300)), "fetch"))
     # the small accessors of the API on the same random goals: Operator::len / get_subgoal at every index (one past the end: panic),
     # Goal::get_ground_term at every argument index under a few substitution sets
     for _ in range(150 if tier == "quick" else 3000):
